@@ -324,9 +324,19 @@ func (cr *chainRun) checkReply(run *caseRun, reply []byte) replyInfo {
 	}
 
 	// options
-	named := cr.desc.namedDown()
+	clientHasECS := false
+	if c.Opt != nil {
+		clientHasECS = codeSet(c.Opt.Options)[8]
+	}
+	named := cr.desc.namedDown(clientHasECS)
 	allowed := map[uint16]bool{}
 	anyUp := map[uint16]bool{}
+	if fgDelivered && c.Up.EchoECS && len(c.Up.Opts) > 0 {
+		anyUp[8] = true // whatever ECS mosdns sent up came back
+		if named[8] {
+			allowed[8] = true
+		}
+	}
 	if fgDelivered {
 		for i, uo := range c.Up.Opts {
 			for _, x := range uo.Options {
@@ -344,7 +354,7 @@ func (cr *chainRun) checkReply(run *caseRun, reply []byte) replyInfo {
 			case allowed[x.Code]:
 				rep.Count("reply_options_forwarded_explicitly", 1)
 			case anyUp[x.Code]:
-				viol("upstream-option-leaked-down", fmt.Sprintf("reply carries upstream option code %d (%x) although no plugin in the chain forwards it (named codes %s; path %s)", x.Code, x.Data, codesStr(named), info.path))
+				viol("upstream-option-leaked-down", fmt.Sprintf("reply carries upstream option code %d (%x) although no plugin in the chain forwards it for this client (named codes %s; client sent ECS: %v; upstream echoes ECS: %v; path %s)", x.Code, x.Data, codesStr(named), clientHasECS, c.Up.EchoECS, info.path))
 			default:
 				viol("reply-option-unexplained", fmt.Sprintf("reply carries option code %d (%x) that the upstream did not send for this exchange (path %s)", x.Code, x.Data, info.path))
 			}
